@@ -69,6 +69,13 @@ def run(run: Run, pkg: Package) -> None:
                        witness=None if ok else f"{show(s['target'])[:60]}.{s.get('attr')} = ... raises FrozenInstanceError",
                        loc=loc_of(it, ev), sound=True)
             ok = not ext
+            private = fi.name.startswith("_") and not fi.name.startswith("__")
+            if not ok and private and all(r[0] == "param" for r in ext):
+                # a private helper writing into an object it was handed: the effect belongs to its call sites, where the summary
+                # "mutates its parameter" is applied to whatever the caller passes (a fresh local there is not a violation)
+                run.ob("R-EFFECT", fq, key, True, f"{s['how']} of a private helper on its own parameter is judged at the helper's call sites",
+                       f"target {show(s['target'])[:80]} aliases {ext}; propagated to callers through the mutation summary", loc=loc_of(it, ev), nontrivial=False)
+                continue
             if not ok:
                 # the may-alias answer proves absence; a violation needs the alias to be reached through views only
                 dext = sorted(r for r in ef.roots_definite(it, s["target"], own=True) if r[0] in EXTERNAL)
